@@ -49,8 +49,12 @@ WalkPrefixes == <<"", "p", "q", "r">>
 WalkUris == <<"", "urn:u", "urn:v", "urn:w">>
 LocalsAB == <<"a", "b">>
 LocalsA == <<"a">>
+\* DTDs of the enumerating configurations (a cfg may override: DtdChoices <- DtdBase)
+DtdChoices == {<<>>}
+DtdBase == {<<<<"p", "urn:v">>>>, <<<<"", "urn:u">>, <<"q", "urn:v">>>>}
 
 VARIABLES ver,      \* XML version of the document
+          dtd,      \* DTD: declarations <<prefix, uri>> every element type gets as DEFAULTED xmlns attributes (<!ATTLIST .. xmlns:p CDATA 'uri'>)
           stack,    \* open elements, outermost first; frame = [q, decls, attrs, row, uri, auri]
           events,   \* SAX2 events emitted so far (history)
           doc,      \* tokens of the document so far (history; what the renderer writes)
@@ -59,7 +63,7 @@ VARIABLES ver,      \* XML version of the document
           done,     \* the root element was closed
           nelems,   \* elements started
           last      \* label of the last step
-vars == <<ver, stack, events, doc, dom, err, done, nelems, last>>
+vars == <<ver, dtd, stack, events, doc, dom, err, done, nelems, last>>
 
 Range(s) == {s[i] : i \in 1..Len(s)}
 SeqsUpTo(S, n) == UNION {[1..k -> S] : k \in 0..n}
@@ -162,12 +166,16 @@ DomRec(stk) ==
      lp |-> [u \in LookupUris \ {""} |-> LookupPfx(stk, n, n, u)],
      df |-> [u \in LookupUris |-> IsDefaultNS(stk, n, u)]]
 
+\* An attribute default applies only when the attribute is not specified (XML 1.0 section 3.3.2): the declarations in force
+\* on a start tag are the written ones plus the DTD defaults of prefixes the tag does not declare itself.
+Effective(decls, d) == decls \o SelectSeq(d, LAMBDA x : ~\E k \in 1..Len(decls) : decls[k][1] = x[1])
 TokS(q, decls, attrs) == <<"S", q[1], q[2], decls, attrs>>
 TokE == <<"E">>
 
 \* the frame StartElement(q, decls, attrs) would push, and the errors it reports
 NewFrame(stk, q, decls, attrs) ==
-    LET raw == [q |-> q, decls |-> decls, attrs |-> attrs, row |-> decls, uri |-> "", auri |-> <<>>]     \* pass 1
+    \* pass 1: the written xmlns attributes, then EVERY defaulted one (as scanStartTagNS does; the first match in a row wins)
+    LET raw == [q |-> q, decls |-> Effective(decls, dtd), attrs |-> attrs, row |-> decls \o dtd, uri |-> "", auri |-> <<>>]
         stk1 == Append(stk, raw)
     IN [raw EXCEPT !.uri = ResolvePrefix(stk1, q[1], "elem"),                                              \* pass 2
                    !.auri = [i \in 1..Len(attrs) |-> ResolvePrefix(stk1, attrs[i][1], "attr")]]
@@ -180,7 +188,7 @@ TagErrs(stk1, f, v) ==
            i \in {i \in 1..Len(f.attrs) : f.auri[i] = Unbound}}
   \cup (IF \E i, j \in 1..Len(f.attrs) : i < j /\ f.auri[i] = f.auri[j] /\ f.attrs[i][2] = f.attrs[j][2] THEN {"attributeCollision"} ELSE {})
 
-Init == /\ ver \in Versions
+Init == /\ ver \in Versions /\ dtd \in DtdChoices
         /\ stack = <<>> /\ events = <<>> /\ doc = <<>> /\ dom = <<>>
         /\ err = FALSE /\ done = FALSE /\ nelems = 0
         /\ last = [a |-> "init", errs |-> {}]
@@ -198,7 +206,7 @@ StartElement(q, decls, attrs) ==
                   /\ stack' = Append(stack, f)
                   /\ events' = events \o StartEvents(f)
                   /\ dom' = Append(dom, DomRec(stack'))
-    /\ UNCHANGED <<ver, done>>
+    /\ UNCHANGED <<ver, dtd, done>>
 
 EndElement ==
     /\ ~err /\ ~done /\ stack # <<>>
@@ -207,7 +215,7 @@ EndElement ==
     /\ doc' = Append(doc, TokE)
     /\ done' = (stack' = <<>>)
     /\ last' = [a |-> "EndElement", errs |-> {}]
-    /\ UNCHANGED <<ver, dom, err, nelems>>
+    /\ UNCHANGED <<ver, dtd, dom, err, nelems>>
 
 Next == \/ \E q \in ElemNames, decls \in DeclSeqs, attrs \in AttrSeqs : StartElement(q, decls, attrs)
         \/ EndElement
@@ -256,7 +264,7 @@ TagInError(stk, q, decls, attrs, v) ==
        \/ \E i, j \in 1..Len(attrs) : i # j /\ attrs[i][2] = attrs[j][2] /\ U(i) = U(j)
 ErrorsExactStep ==        \* action-level: evaluated on every StartElement transition
     (last'.a = "StartElement" /\ nelems' = nelems + 1) =>
-        LET t == doc'[Len(doc')] IN err' = TagInError(stack, <<t[2], t[3]>>, t[4], t[5], ver)
+        LET t == doc'[Len(doc')] IN err' = TagInError(stack, <<t[2], t[3]>>, Effective(t[4], dtd), t[5], ver)
 
 \* SAX2 prefix mapping events, over the event sequence alone
 IsK(ev, i, k) == ev[i][1] = k
@@ -315,5 +323,5 @@ NsInv == TypeOK /\ NearestDeclaration /\ Balanced /\ Scoped /\ DomAgrees
 StepInv == [][NsInv']_vars
 ErrorsExact == [][ErrorsExactStep]_vars
 \* identity of a state for exploring: the rows of the open elements (history variables excluded)
-View == <<ver, [i \in 1..Len(stack) |-> stack[i].decls], err, done>>
+View == <<ver, dtd, [i \in 1..Len(stack) |-> stack[i].decls], err, done>>
 =============================================================================
